@@ -21,20 +21,32 @@ def model_stream(kind, consts):
     return p[2].split(",") if len(p) > 2 and p[2] else []
 
 
-def top_children(sk):
-    """`F[a,b[c],d]` -> ['a', 'b[c]', 'd']"""
-    if not sk.startswith("F[") or not sk.endswith("]"):
-        return []
-    out, depth, cur = [], 0, ""
-    for ch in sk[2:-1]:
-        if ch == "," and depth == 0:
-            out.append(cur)
-            cur = ""
-            continue
-        depth += ch == "["
-        depth -= ch == "]"
-        cur += ch
-    return out + ([cur] if cur else [])
+def predicted_streams(hists, total):
+    """the PREDICTED output stream of every history: `Model/LiveCoding.lean: session` on the reference semantics, the published
+    layouts and the model of the pinned migration (drv_c07, mode `session`); one string `w,w;w,w;…` per history (None: the model
+    gives no stream)"""
+    lines = []
+    for i, h in enumerate(hists):
+        sxs = [voicegen.render_sx(v["voices"], v["observed"], v["broken"]) for v in h]
+        events = ",".join(f"{v['t']}:{k}" for k, v in enumerate(h) if k > 0) or "-"
+        lines.append("\t".join([f"h{i}", "session", str(total), "-", events] + sxs))
+    nsh = min(NCPU, max(1, len(lines) // 8))
+    shards = [lines[k::nsh] for k in range(nsh)]
+
+    def work(sh):
+        if not sh:
+            return {}
+        q = driver("C07", input="\n".join(sh) + "\n")
+        out = {}
+        for ln in q.stdout.split("\n"):
+            f = ln.split("\t")
+            if len(f) >= 2:
+                out[f[0]] = f[1][3:] if f[1].startswith("ok ") else None
+        return out
+    res = {}
+    for r in parallel(shards, work, nproc=nsh):
+        res.update(r)
+    return [res.get(f"h{i}") for i in range(len(hists))]
 
 
 def expected(versions, total):
@@ -98,7 +110,9 @@ def main(ctx, args):
         "a third of the voices feed a post-processing cell owned by dsp (`delay(8, voice(c), d)` or `mem(voice(c))`: a sibling site after the voice's own state); "
         "edits: insert / delete / replace (different shape; for a voice inside a post cell mostly only the voice, the cell stays and must keep its content) / nest deeper / change constant / inject a syntax error, at random swap times",
         "oracle per observed channel: the reference semantics (drv_prog) of that voice alone, fed the constants it saw since it was created (through a post cell: what went into the cell d samples earlier, whichever voice fed it then, zero before the cell existed); "
-        "voices that were nested deeper are not judged (a different site); when an untouched voice is not carried the Lean model of the pinned diff decides F5 vs new violation",
+        "voices that were nested deeper are not judged (a different site)",
+        "judge: (1) the runtime's samples must equal, sample by sample, the stream PREDICTED for the whole history by `Model/LiveCoding.lean: session` (reference semantics + published layouts + model of the pinned migration; drv_c07 mode `session`): any difference is a violation; "
+        "(2) where the predicted stream itself departs from the per-voice oracle the history is finding F5 (the pinned diff, exactly as modelled and as the runtime just confirmed, does not carry an untouched voice or hands old words to a fresh one)",
         "WASM payloads are built as in C06 (CLI code replicated in the harness, with the new and the previous skeleton)",
     ]
     known = load_known("C07")
@@ -107,7 +121,7 @@ def main(ctx, args):
     proved = prove(ctx, MODULES, drivers=["drv_prog", "drv_c07"])
     if proved and ctx.tier == "thorough":
         proved = leancheck(ctx, MODULES)
-    if not build_harness(ctx, bins=["c06", "c05"]):
+    if not build_harness(ctx, bins=["c06"]):
         ctx.finish()
     total = 40 if ctx.tier == "quick" else 96
     nhist = 120 if ctx.tier == "quick" else 3000
@@ -128,8 +142,9 @@ def main(ctx, args):
         for be in ("vm", "wasm"):
             cases.append(dict(id=f"h{i}|{be}", backend=be, srcs=srcs, events=events, times=total, inputs=[], hist=i))
     res = c06mod.run_hist(cases)
+    pred = predicted_streams(hists, total)
     failures, stats, nontriv, samples = [], collections.Counter(), set(), []
-    f5_hits = 0
+    f5_hits, f5_hists = 0, set()
     for c in cases:
         h = hists[c["hist"]]
         st, out = res[c["id"]]
@@ -146,8 +161,22 @@ def main(ctx, args):
             want = f"swap-compile-error@{v['t']}->{k}" if v["broken"] else f"swap@{v['t']}->{k}"
             if want not in st:
                 failures.append((c, f"swap {k} at t={v['t']} ({v['edit']}): expected `{want}`, status `{st[:200]}`", None))
+        # (1) the real runtime against the PREDICTED stream of the whole session, sample by sample: no excuse
+        p = pred[c["hist"]]
+        if p is None:
+            failures.append((c, "the session model gives no stream for this history (evaluation error or no migration)", None))
+            continue
+        if out != p:
+            prow, rrow = p.split(";"), out.split(";")
+            t = next((i for i, (a, b) in enumerate(zip(rrow, prow)) if a != b), min(len(rrow), len(prow)))
+            failures.append((c, f"the runtime's output differs from the predicted session stream at sample {t}: "
+                                f"predicted {prow[t] if t < len(prow) else '-'} got {rrow[t] if t < len(rrow) else '-'}", ("pred", t)))
+            stats["real_differs_from_predicted"] += 1
+            continue
+        stats["real_equals_predicted"] += 1
+        # (2) the predicted stream against the property's expectation (every observed voice continues / starts from zero)
         exp, inst = expected(h, total)
-        rows = out.split(";")
+        rows = p.split(";")
         bad = None
         for t, row in enumerate(exp):
             got = rows[t].split(",") if t < len(rows) else []
@@ -166,56 +195,16 @@ def main(ctx, args):
             if len(samples) < 3 and stats["evaluations"] % 37 == 5:
                 samples.append({"backend": c["backend"], "edits": [(v["t"], v["edit"]) for v in h], "last_src": c["srcs"][-1][-400:], "samples": out[:200]})
             continue
-        # is it finding F5 (the pinned diff, as modelled, does not carry this untouched voice at some swap since its birth)?
+        # the runtime does exactly what the model of the pinned migration predicts, and that is not what the property demands:
+        # finding F5 (the pinned diff does not carry an untouched voice / hands old words to a fresh one)
         t, ch, vid, kind, w, g = bad
-        live = [v for v in h if not v["broken"]]
-        cls = "violation"
-        detail = []
-        for k in range(1, len(live)):
-            oldv, newv = live[k - 1], live[k]
-            if newv["t"] > t:
-                break
-            if not any(v["vid"] == vid for v in newv["voices"]):
-                continue
-            och, nch = voicegen.children_of(oldv["voices"]), voicegen.children_of(newv["voices"])
-            nv = next(v for v in newv["voices"] if v["vid"] == vid)
-            pairs = []
-            pairs.append((och[vid][0] if vid in och else None, nch[vid][0]))
-            if nv.get("post"):
-                # the post cell: carried from the cell with the same pid (its voice may have been replaced)
-                ov = next((v for v in oldv["voices"] if v.get("post") and v["post"]["pid"] == nv["post"]["pid"]), None)
-                pairs.append((och[ov["vid"]][1] if ov else None, nch[vid][1]))
-            sk = {}
-            for tag, ver in (("o", oldv), ("n", newv)):
-                p = mmh("C05", [], input=json.dumps({"id": "s", "src": voicegen.render(ver["voices"], ver["observed"]), "times": 0, "inputs": []}) + "\n")
-                sk[tag] = p.stdout.split("\t")[2] if len(p.stdout.split("\t")) > 2 else "-"
-            # the excuse needs the published skeletons to describe the programs at all: dsp's children must be, in order,
-            # every voice's instance (F[..]) followed by its post cell (D8 / M1) when it has one
-            for tag, ver in (("o", oldv), ("n", newv)):
-                want = []
-                for v in ver["voices"]:
-                    want.append("F")
-                    if v.get("post"):
-                        want.append("D%d" % voicegen.POST_N if v["post"]["kind"] == "delay" else "M1")
-                got = top_children(sk[tag])
-                if len(got) != len(want) or any(not g.startswith(w) for g, w in zip(got, want)):
-                    cls = "skeleton-does-not-describe-the-program"
-                    detail.append((newv["t"], tag, sk[tag], "expected children " + ",".join(want)))
-            if cls == "skeleton-does-not-describe-the-program":
-                break
-            for oi, nj in pairs:
-                q = driver("C07", input=f"x\t{sk['o']}\t{sk['n']}\t{'-' if oi is None else oi}:{nj}\n")
-                carried = q.stdout.strip().split("\t")[-1]
-                detail.append((newv["t"], sk["o"], sk["n"], oi, nj, carried))
-                if carried in ("0", "R"):      # untouched cell not carried / fresh voice receives old words: the pinned diff's mismatch
-                    cls = "F5"
-        bad = bad + (detail,)
-        if cls == "F5" and any(kf["id"] == "F5" for kf in known):
+        if any(kf["id"] == "F5" for kf in known):
             f5_hits += 1
+            f5_hists.add(c["hist"])
         else:
-            failures.append((c, f"channel {ch} observing voice c{vid} ({kind}) at sample {t}: expected {w} got {g}; detail={bad[6:] if len(bad) > 6 else ''}", bad))
+            failures.append((c, f"channel {ch} observing voice c{vid} ({kind}) at sample {t}: the property expects {w}, the runtime and the session model give {g}", bad))
     for kf in known:
-        ctx.known_finding(f"{kf['id']} {kf['what']} (histories hit this run: {f5_hits})")
+        ctx.known_finding(f"{kf['id']} {kf['what']} (histories hit this run: {f5_hits} runs = {len(f5_hists)} of {len(hists)} histories x runtimes on which the predicted stream itself departs from the expectation)")
     if failures:
         failures.sort(key=lambda f: len(f[0]["srcs"]))
         c, why, bad = failures[0]
@@ -229,11 +218,14 @@ def main(ctx, args):
     ctx.coverage.update({
         "evaluations": stats["evaluations"],
         "distinct_nontrivial": len(nontriv),
-        "rule": "random edit histories (1-6 edits at random times over %d samples) x both runtimes; every observed channel of every sample compared with the reference semantics of the observed voice instance; non-trivial = at least one edit" % total,
+        "rule": "random edit histories (1-6 edits at random times over %d samples) x both runtimes; every sample of the runtime compared with the predicted session stream (Lean `session`), and the predicted stream with the reference semantics of every observed voice instance; non-trivial = at least one edit" % total,
         "samples": samples or [{"note": "replay mode"}],
         "traces_validated_against_impl": stats["evaluations"],
         "failures": len(failures),
         "edit_kinds": {k: v for k, v in stats.items() if k.startswith("edit_")},
         "known_F5_histories": f5_hits,
+        "known_F5_distinct_histories": len(f5_hists),
+        "real_equals_predicted_session": stats["real_equals_predicted"],
+        "real_differs_from_predicted_session": stats["real_differs_from_predicted"],
     })
     ctx.finish("proof")
